@@ -146,7 +146,10 @@ inline void topologyChecks(vh::Ctx& c, const BuiltMesh& b) {
     c.check("facegeom:normal", worstN, 1e-12, W("face normal != normalised cross product"));
     c.check("facegeom:area", worstA, 1e-13, W("face area != |cross|/2"));
     c.check("facegeom:centroid-and-findPoint", worstC, 1e-13 * (m.scale + m.center.norm()), W("findCentroid/findPoint wrong"));
-    c.require("facegeom:normals-outward", vol > 0, W("signed volume with the reported vertex order is not positive"));
+    c.require("facegeom:normals-outward", vol > 0, [&]() {
+        Json j = W("signed volume with the reported vertex order is not positive (mesh is inside-out)")().set("via_polygonal_mesh", b.viaPolygonal);
+        if (nv <= 24) { Json vs = Json::arr(), fs = Json::arr(); for (auto& p : m.v) vs.push(jv(p)); for (int x : m.f) fs.push(Json(x)); j.set("vertices", vs).set("face_indices", fs); }
+        return j; });
     // bounding sphere contains all vertices
     Vec3 ctr; Real rad; tm.getBoundingSphere(ctr, rad);
     double worst = -Infinity, far = 0;
@@ -246,8 +249,9 @@ inline void meshQueryChecks(vh::Ctx& c, const BuiltMesh& b, vh::Rng& r, int nNea
         double tol = (1e-12 * sc + 1e-14 * pos) * std::min(cond, 1e8);
         c.check("nearest-distance:" + tier, std::fabs((p - x).norm() - (double)bf.dist), tol, [&]() { return W().set("brute_force_distance", (double)bf.dist).set("brute_force_face", bf.face); });
         LD onS = distToTriangle(V3(p), m.vert(face, 0), m.vert(face, 1), m.vert(face, 2));
-        c.check("onsurface:mesh-nearest-on-reported-face", (double)onS, 2e-12 * (pos + sc), W);
-        if ((double)bf.dist > 1e-7 * sc) {
+        c.check("onsurface:mesh-nearest-on-reported-face", (double)onS, 2e-12 * (pos + sc) * std::max(1.0, std::min(cond, 1e8) / 1e3), W);
+        if (meshSignedVolume(m) < 0) c.obs("inside-flag-not-judged-mesh-is-inside-out");    // consequence of facegeom:normals-outward
+        else if ((double)bf.dist > 1e-7 * sc) {
             BfInside bi = bfInside(m, V3(x), r);
             LD wn = windingNumber(m, V3(x));
             bool wnIn = wn > 0.5L, wnClear = std::fabs(wn - (wnIn ? 1 : 0)) < 1e-6L;
